@@ -159,6 +159,20 @@ def run(F, res, tier):
     res.ob("G2", "postfix-before-infix", "the postfix loop (call/field access/tuple index) completes before the infix loop starts and is not re-entered from it",
            ok_order and len(heads) == 2, where=eb.loc(), how="loops: %d; arg_list reachable from infix loop: %s" % (len(heads), not ok_order))
 
+    # postfix operators bind tighter than every operator: whatever min_bp expr_bp is entered with (in particular the
+    # right power of a prefix operator), the call / field-access continuation of its operand is taken
+    from lib import pcache
+    R = pcache.results(F)
+    per_arg = R["ctx_calls"].get("syntax::parser::expr_bp", {})
+    res.floor("distinct min_bp values expr_bp is entered with", len(per_arg), 10)
+    for a, cs in sorted(per_arg.items()):
+        names = {c.rsplit("::", 1)[-1] for c in cs}
+        okc = {"arg_list", "name_ref"} <= names
+        res.ob("G2", "postfix-at-min_bp/%s" % a.strip("(),"),
+               "entered with min_bp %s, expr_bp still parses `f(..)` and `x.name` after its operand (a postfix chain is never "
+               "left to an enclosing operator)" % a.strip("(),"), okc, where=eb.loc(),
+               how="callees reached: %s" % sorted(names))
+
     # ---- G3
     def bits(name):
         return F.const_bits("syntax::parser::" + name)
